@@ -127,7 +127,19 @@ class C01(RVCheck):
                     addr = rng.choice(ADDRS64 if xlen == 64 else ADDRS32)
                     gs.append([self.case("i%d" % k, xlen, exts, addr, w)])
                     k += 1
+                # the same word lifted again by the same parser at other addresses (and back): the lifting of a word may
+                # depend on its address, never on what the parser lifted before
+                w = encode(t, rng, xlen)
+                addrs = rng.sample(ADDRS64 if xlen == 64 else ADDRS32, 2)
+                g = []
+                for a in (addrs[0], addrs[1], addrs[0]):
+                    g.append(self.case("i%d" % k, xlen, exts, a, w))
+                    k += 1
+                gs.append(g)
         return gs
+
+    def stateful(self):
+        return True             # a group goes through one harness process (one parser per configuration), in order
 
 
 def cube_words(rng, tier):
